@@ -62,6 +62,8 @@ def run_case(ctx, case):
         n = kv_info(W_)[1]
         P = rand_points(ctx["rng"], n, 1, ints=True)
         T = impl(lambda: heavy.Operations.matrix_transformation(tuple(W_), tuple(X)))
+        unit_matrix(rec, drv, case, "ops.trans", lambda: heavy.Operations.matrix_transformation(tuple(W_), tuple(X)),
+                    "ops.trans", list(W_), list(X))
         if T[0] != "ok":
             rec.violation("a spline over an operand is not representable on the union (transformation raised)", case, observed=T[1])
             continue
